@@ -16,7 +16,9 @@ import sys
 def workspace_files(seed: int):
     """cross-file USE, EXTENDS, INCLUDE and submodule links: the C10 workspace plus a generated USE/EXTENDS program"""
     from contracts import c10_hist, c05_gen
-    files = dict(c10_hist.BASE)
+    # (only the files the scan of the workspace indexes: one that is known to the server only while it is open is part of
+    # C10's open/close histories, not of the schedules of one set of source files)
+    files = {k: v for k, v in c10_hist.BASE.items() if k not in ("vars.inc", "hv.f90")}
     g = c05_gen.Gen(random.Random(4000 + seed))
     gen_files, _ = g.generate()
     files.update(gen_files)
